@@ -15,7 +15,7 @@ THEOREM_MODULES = ["WrapModel.Props.C02"]
 
 
 def run_stream(ctx, n, cfg_kw, tag, check_spec):
-    res = fw.run_cases(streams.inst_case, [(ctx.seed + (0 if check_spec else 5000), cfg_kw)] * n)
+    res = fw.run_cases(streams.inst_case, [(ctx.seed + (0 if check_spec else 5000) + len(tag), cfg_kw)] * n)
     for r in res:
         if "crash" in r:
             raise RuntimeError(r["crash"])
@@ -34,7 +34,7 @@ def run_stream(ctx, n, cfg_kw, tag, check_spec):
 
 
 def search(ctx):
-    res = fw.run_cases(streams.inst_case, [(ctx.seed + 77, dict(c02_safe=True))] * ctx.scale(300, 2000))
+    res = fw.run_cases(streams.inst_case, [(ctx.seed + 77, dict(c02_safe=True, p_param_named_inst=0.4, p_template=0.5))] * ctx.scale(300, 2000))
     for r in res:
         if "crash" not in r and not r["spec_eq"] and not r["err"]:
             return dict(what="an instantiated type is not the capture-free substitution of its declaration",
@@ -51,7 +51,9 @@ def replay_finding(e):
 def main(ctx):
     fw.translate_and_build(ctx, ["WrapModel", "wrapmodel"])
     fw.audit(ctx, THEOREM_MODULES)
-    run_stream(ctx, ctx.scale(220, 5000), dict(c02_safe=True), "guarded", True)
+    run_stream(ctx, ctx.scale(220, 5000), dict(c02_safe=True, p_param_named_inst=0.4, p_template=0.5), "guarded", True)
+    run_stream(ctx, ctx.scale(90, 1500), dict(c02_safe=True, p_param_named_inst=0.9, p_template=0.95, max_decls=3),
+               "guarded, instantiations spelled like other parameters", True)
     run_stream(ctx, ctx.scale(120, 2500), dict(), "unguarded(quirks tied to the model only)", False)
     for e in ctx.known:
         still = replay_finding(e)
